@@ -100,7 +100,7 @@ CLAIMED = {
              "error, after an execute the device holds a handle on the current node also when closing the stale handle failed; with "
              "detection off the original handle is kept; every handle is released at most once and close()/__exit__ release the current "
              "one. The shape of execute()'s replug prologue and of _is_replugged/open/close/__exit__ is REGENERATED and checked; the state "
-             "machine is tied by 2300 event sequences run against the real SCSIDevice on a real file system under /dev/shm, also with the device path being an alias (symlink) of the node that a replug re-points.",
+             "machine is tied by 2300 event sequences run against the real SCSIDevice on a real file system under /dev/shm, also with the device path being an alias (symlink) of the node that a replug re-points, and (implementation oracle only) with re-opens that fail.",
         ref="DESIGN.md §4 C15",
         note="Partial: OS behaviour (inode reuse, race between stat and open) is outside the model; the file-system contract is listed in the "
              "evidence assumptions. ISCSIDevice connect/disconnect pairing is exercised by the C19 and C07 drivers, not proved here.",
